@@ -9,6 +9,7 @@ CONSTANTS
   BinOps = {"+", "-", "*", "/", "%", "^", "atan2", "==", "!=", "<", "<=", ">", ">=", "</", ">/", "and", "or", "unless"}
   BinMods = {"none"}
   Offsets = {}
+  BadOffsets = {}
   AtMods = {}
   Exts = {}
   Ranges = {}
